@@ -222,11 +222,14 @@ class GroupValidator:
                     error_code = ValidationErrors.HED_TAG_REPEATED_GROUP
                     found_group = child
                     base_steps_up = 0
-                    while isinstance(found_group, list):
+                    while isinstance(found_group, list) and found_group:
                         found_group = found_group[0]
                         base_steps_up += 1
-                    for _ in range(base_steps_up):
-                        found_group = found_group._parent
+                    if isinstance(found_group, HedTag):
+                        for _ in range(base_steps_up):
+                            found_group = found_group._parent
+                    else:  # nothing but empty groups inside: no tag to climb back from
+                        found_group = child
                     validation_issues += ErrorHandler.format_error(error_code, found_group)
             if not isinstance(child, HedTag):
                 self._check_for_duplicate_groups_recursive(child, validation_issues)
